@@ -297,6 +297,8 @@ func runC01(c *Ctx) {
 
 	s.checkSkippedFindable(c, "skipped-is-findable")
 	s.checkExitCodeProvenance(c, "exitcode-provenance")
+	s.checkProbeFailureIsError(c, "probe-failure-is-error")
+	s.checkIncompatibleHealthChecksRejected(c, "ready-line-and-probe-rejected")
 }
 
 func isOneOf(in ssa.Instruction, set []ssa.Instruction) bool {
@@ -447,7 +449,7 @@ func (s *Sel) checkNegativeResult(c *Ctx, rule, construct string, gate *ssa.Func
 				ok = false
 			case *ssa.Return:
 				sawRet = true
-				if len(x.Results) == 0 || IsNilConst(x.Results[len(x.Results)-1]) {
+				if len(x.Results) == 0 || IsNilConst(RetVals(x)[len(x.Results)-1]) {
 					ok = false
 				}
 			}
@@ -470,7 +472,7 @@ func (s *Sel) checkReadyWaitResults(c *Ctx, rule string) {
 			}
 			c.Touch(w)
 			for _, ret := range returnsOf(w) {
-				b, isConst := ConstBool(ret.Results[0])
+				b, isConst := ConstBool(RetVals(ret)[0])
 				construct := p.FuncKey(w) + ":true-only-on-success"
 				if isConst && !b {
 					continue
@@ -497,7 +499,7 @@ func (s *Sel) checkReadyWaitResults(c *Ctx, rule string) {
 				}
 				if !isConst {
 					// a computed boolean: accept only if it is exactly the success comparison
-					if bo, okb := ret.Results[0].(*ssa.BinOp); okb && k == latchReady && bo.Op == token.EQL &&
+					if bo, okb := RetVals(ret)[0].(*ssa.BinOp); okb && k == latchReady && bo.Op == token.EQL &&
 						((PathOf(bo.X).LastField() == s.FHealth && isStr(bo.Y, readyConst)) || (PathOf(bo.Y).LastField() == s.FHealth && isStr(bo.X, readyConst))) {
 						ok = true
 					}
@@ -550,7 +552,7 @@ func returnGuardedNonNil(ret *ssa.Return) bool {
 	if len(ret.Results) != 1 {
 		return false
 	}
-	rv := ret.Results[0]
+	rv := RetVals(ret)[0]
 	for _, g := range GuardsOf(ret) {
 		cmp, ok := g.Cmp()
 		if !ok || cmp.Op != token.NEQ {
